@@ -858,6 +858,37 @@ class VoidPtr(Atom):
         return [rnd(NATIVE["int"], v + 1)]
 
 
+class PtrPtrIn(Atom):
+    """T **x +intent(in): the caller hands over the address of its own table of row pointers (two rows of two);
+    Fortran passes a type(C_PTR) by value"""
+
+    py = False
+    lua = False
+
+    def __init__(self, t):
+        Atom.__init__(self, "pp_in_" + t.id)
+        self.t = t
+
+    def decl(self, n):
+        return ["%s **%s +intent(in)" % (self.t.cname, n)]
+
+    def cparams(self, n, lang):
+        return ["%s **%s" % (self.t.cname, n)]
+
+    def body(self, n, lang):
+        return ['vt_txt(" %s=");' % n, cfmt(self.t, "%s[0][0]" % n), 'vt_txt(",");', cfmt(self.t, "%s[0][1]" % n), 'vt_txt(",");', cfmt(self.t, "%s[1][0]" % n),
+                'vt_txt(",");', cfmt(self.t, "%s[1][1]" % n)], []
+
+    def values(self):
+        return [(1, 2, 3, 4), (-1, 0, 7, 9)]
+
+    def recv(self, n, v):
+        return " %s=%s" % (n, ",".join(rnd(self.t, x) for x in v))
+
+    def observe(self, v):
+        return []
+
+
 class StrArrIn(Atom):
     """char **x +intent(in)+rank(1) with int cntx +implied(size(x)): an array of blank padded strings arrives as
     NUL-terminated, trimmed C strings"""
@@ -1407,7 +1438,7 @@ def core_args(level=1):
           Vec(T["int"], "inout", bare=True)]
     A += [EnumVal(), ClsArg("ptr"), ClsArg("cref")]
     A += [StructArg(f) for f in ("val", "cptr", "ptr_inout", "ptr_out", "ref_inout", "cref")]
-    A += [PtrPtrOut(T["int"], "fixed"), PtrPtrOut(T["int"], "dyn"), PtrPtrOut(T["double"], "dyn"), VoidPtr(), StrArrIn()]
+    A += [PtrPtrOut(T["int"], "fixed"), PtrPtrOut(T["int"], "dyn"), PtrPtrOut(T["double"], "dyn"), VoidPtr(), StrArrIn(), PtrPtrIn(T["int"]), PtrPtrIn(T["double"])]
     return A
 
 
